@@ -10,9 +10,9 @@ Import ListNotations.
 (** For every history over three buffer variables (allocate, deallocate, pushes and pops at both ends,
     clear, copy/move construction and assignment, queries) that respects the documented preconditions
     ([valid]: a push needs a free place within max_size, a pop a non-empty buffer, allocate an unallocated
-    buffer, and the SOURCE of a copy or move must be allocated; the destination of an assignment may be in any
-    state, incl. default-constructed, moved-from and deallocated -- the last case is what exposed the stale
-    capacity_ defect refuted below):
+    buffer; sources and destinations of copies, moves and assignments may be in any state, incl.
+    default-constructed, moved-from and deallocated -- these cases exposed the stale capacity_ and
+    zero-size-block defects refuted below):
     every query answers exactly as the bounded-deque specification, and the lifetime ledger never
     records a construct-over-live, a destroy-of-raw or, after final destruction, a leaked element. *)
 Theorem C16_ring_refines_deque : forall ops,
@@ -65,6 +65,15 @@ Theorem C16_deallocate_shipped_refuted :
   contents (buf (copy_assign (buf (deallocate a0)) c)) = [Some 2].
 Proof. exact deallocate_shipped_refuted. Qed.
 Print Assumptions C16_deallocate_shipped_refuted.
+
+Theorem C16_copy_unallocated_shipped_refuted :
+  data (buf (copy_construct_shipped empty_ring)) = Some [] /\
+  bad (allocate (buf (copy_construct_shipped empty_ring)) 3) = true /\
+  bad (allocate (buf (copy_construct empty_ring)) 3) = false /\
+  bad (allocate (buf (copy_assign_shipped (make 3) empty_ring)) 2) = true /\
+  bad (allocate (buf (copy_assign (make 3) empty_ring)) 2) = false.
+Proof. exact copy_unallocated_shipped_refuted. Qed.
+Print Assumptions C16_copy_unallocated_shipped_refuted.
 
 (** SimpleVector (Normal mode): for every history over three variables (construction with a size, resize,
     element writes, destroy(), move construction / assignment, swap, queries) the answers are those of plain lists
